@@ -125,7 +125,8 @@ func Eval(fn *ssa.Function, oracle func(ssa.Value) (constant.Value, bool)) (res 
 		case *ssa.Return:
 			res.Ret = t
 			for _, r := range t.Results {
-				res.Raw = append(res.Raw, r)
+				// a result variable (named results, a bare return): the value it holds on the path that was walked
+				res.Raw = append(res.Raw, Path(res.Path).ResolveAt(len(res.Path)-1, r))
 				if k, ok := val(r, pred, cur, 8); ok {
 					res.Values = append(res.Values, k)
 				} else {
